@@ -341,18 +341,48 @@ def run(ctx):
             hist = []
             for st in order:
                 # failing attempts in between: repeat a finished step, or run a step whose prerequisites are missing
-                for _ in range(rng.choice([0, 1, 1, 2])):
+                for n_try in range(rng.choice([1, 1, 2]) if not done else rng.choice([0, 1, 1, 2])):
                     cands = [x for x in done] + [x for x in ("rise", "recession") if not NEEDS[x] <= set(done)]
                     if not cands:
                         break
+                    if rng.random() < 0.35 or (not done and n_try == 0):
+                        # an attempt that fails because of what was typed (a zero, denormal or not-a-number step, a reference
+                        # level off the grid), at any moment of the history -- also before the step has ever succeeded
+                        argv = rng.choice([["set-zeta-grid", work, "-d", "0"], ["set-zeta-grid", work, "-d", "1e-320"],
+                                           ["set-zeta-grid", work, "-d", "nan"], ["set-zeta-grid", work, "-d", "0.0"]] + (
+                            [["rise", work, "-r", "0.123456"], ["recession", work, "-r", "-7.654321"]] if done else []))
+                        before = cli.dump(work)
+                        rf = cli.run(argv)
+                        ctx.count("attempts_failing_on_their_arguments" if rf[0] != "ok" else "attempts_with_odd_arguments_that_succeeded")
+                        hist.append(" ".join(argv[:1] + argv[2:]) + ("(!)" if rf[0] != "ok" else ""))
+                        after = cli.dump(work)
+                        if rf[0] != "ok" and after != before:
+                            diff = [n for n in after if after[n] != before.get(n)]
+                            ctx.obligation(ob3, False)
+                            ctx.violation("impl-violation", "c20Histories", {
+                                "input": dict(inp0, history=hist, canonical=STEPS), "impl": {"status": list(rf), "tables_differing": diff},
+                                "oracle": {"name": "c20Histories", "result": False,
+                                           "witness": {"why": "an attempt that failed left the dataset changed", "history": hist,
+                                                       "attempt": argv[:1] + argv[2:], "tables_differing": diff}}})
+                            break
+                        if rf[0] == "ok":
+                            # (it was not a failing attempt after all: this history is not comparable with the canonical one)
+                            hist.append("<abandoned>")
+                            break
+                        continue
                     f = rng.choice(cands)
                     rf = cli.run(argv_of(f, work, tr, zstep, variant=(f in done and rng.random() < 0.6)))
                     hist.append(f + "(!)" if rf[0] != "ok" else f + "(unexpectedly ok)")
                     if rf[0] == "ok":
                         ctx.count("failing_attempt_succeeded")    # (judged below: the final dataset must still be the same)
+                if hist and hist[-1] == "<abandoned>":
+                    break
                 r = cli.run(argv_of(st, work, tr, zstep))
                 hist.append(st)
                 done.append(st)
+            if hist and hist[-1] == "<abandoned>":
+                ctx.count("histories_abandoned")
+                continue
             got = cli.dump(work)
             ctx.case((d_i, "history", tuple(hist)), True)
             ctx.count("histories")
